@@ -259,6 +259,9 @@ func (g *Gen) fill(kind string, p *Program) Op {
 	case "JSONRT":
 		op.D = []string{d(), d(), d(), d(), g.Dec()}
 		op.I = []int64{int64(g.R.N(4) / 3)}
+	case "JSONRT2":
+		op.D = []string{d(), d(), d(), d(), g.Dec()}
+		op.I = []int64{int64(g.R.N(8))}
 	case "JSONDoc":
 		op.D = []string{g.Dec()}
 		op.S = []string{g.jsonDocToken(), g.jsonDocToken(), g.jsonDocToken()}
@@ -806,6 +809,7 @@ var p20Kinds = []string{
 	"MarshalBinary", "UnmarshalBinary", "Parse", "MustParse", "UnmarshalText", "Sscan", "ScanState",
 	"String", "MarshalText", "TextRT", "FormatFn", "AppendFn", "AppendM", "Sprintf", "FormatState",
 	"MarshalJSON", "UnmarshalJSON", "JSONRT", "JSONDoc", "Decompose", "ComposeRow", "Compose",
+	"JSONRT2",
 }
 
 func genP20(g *Gen, p *Program) {
